@@ -17,6 +17,8 @@ EXPRS = {
     "t and not u": ("and", L("t"), ("not", L("u"))), "t*": L("t*"),
     "-t": ("not", L("t")), "~t": ("not", L("t")), "t,u": ("or", L("t"), L("u")), "@t": L("t"),
     "not u": ("not", L("u")),
+    # a tag whose text contains '<' and '>' (legal tag text, looks like an outline placeholder)
+    "r<1>": L("r<1>"), "not r<1>": ("not", L("r<1>")),
     # several --tags arguments are AND-ed (list form), in both dialects
     "t && not u": ("and", L("t"), ("not", L("u"))), "t && -u": ("and", L("t"), ("not", L("u"))),
     "t,u && -u": ("and", ("or", L("t"), L("u")), ("not", L("u"))), "t or u && not t": ("and", ("or", L("t"), L("u")), ("not", L("t"))),
